@@ -7,6 +7,7 @@ package main
 
 import (
 	"fmt"
+	"strconv"
 	"strings"
 
 	"github.com/google/pprof/profile"
@@ -134,8 +135,9 @@ func c17Oracle(c *Ctx, cs c17Case, s *c17Set, frames []c17SampleFrames, withFram
 			return false
 		}
 		var sumStacks, sumSamples int64
-		keyOf := map[int]c17Key{} // source index -> the frame identity it stands for
-		idxOf := map[c17Key]int{} // frame identity -> source index
+		idsOf := map[int]map[uint64]bool{} // source index -> ids of the functions whose frames it stands for
+		keyOf := map[int]c17Key{}          // source index -> the frame identity it stands for
+		idxOf := map[c17Key]int{}          // frame identity -> source index
 		for a, st := range s.Stacks {
 			sf := frames[a]
 			sumStacks += st.Value
@@ -165,10 +167,14 @@ func c17Oracle(c *Ctx, cs c17Case, s *c17Set, frames []c17SampleFrames, withFram
 					bad("C17/frame/name", fmt.Sprintf("Stacks[%d] frame %d: source %q for function %q", a, b, x.Full, f.Name))
 				}
 				// FileName: the function's file name after the documented trimming for the given options —
-				// none configured here, so only the two built-in prefixes go
-				if want := c17TrimDefault(f.File); x.File != want && (c17PlainASCII(f.File) || !s.HasType) {
+				// (-trim_path, -source_path; with neither, only the two built-in prefixes go)
+				if want := c17Trim(f.File, cs.TrimPath, cs.SourcePath); x.File != want && (c17PlainASCII(f.File) || !s.HasType) {
 					bad("C17/frame/file-name", fmt.Sprintf("Stacks[%d] frame %d (%+q): FileName %+q, the function's file %+q trims to %+q", a, b, f.Name, x.File, f.File, want))
 				}
+				if idsOf[i] == nil {
+					idsOf[i] = map[uint64]bool{}
+				}
+				idsOf[i][f.FnID] = true
 				k := f.key()
 				if k0, seen := keyOf[i]; seen && k0 != k {
 					bad("C17/frame/identity-merged", fmt.Sprintf("source %d stands for two different frames %+v and %+v", i, k0, k))
@@ -183,6 +189,7 @@ func c17Oracle(c *Ctx, cs c17Case, s *c17Set, frames []c17SampleFrames, withFram
 		if sumStacks != sumSamples {
 			bad("C17/values/sum", fmt.Sprintf("stack values sum to %d, selected sample values to %d", sumStacks, sumSamples))
 		}
+		c17UniqueOracle(c, cs, s, idsOf, bad)
 	} // withFrames
 	if len(s.Sources) == 0 {
 		bad("C17/sources/no-root", "no root source")
@@ -250,13 +257,114 @@ func c17PlainASCII(s string) bool {
 	return true
 }
 
-// c17TrimDefault: trimPath with no -trim_path and no -source_path: only the built-in prefixes
-// "/proc/self/cwd/./" and "/proc/self/cwd/" are removed (= trimPathDefault in Model/Stacks.lean).
-func c17TrimDefault(path string) string {
-	for _, pre := range []string{"/proc/self/cwd/./", "/proc/self/cwd/"} {
-		if strings.HasPrefix(path, pre) {
-			return path[len(pre):]
+// c17Trim: the documented semantics of trimPath(path, trim_path, source_path)
+// (internal/report/source.go; = trimPath in Model/Stacks.lean, compared on every case):
+// without a trim path, the first directory of the source path (a ':'-separated list) whose base
+// name occurs in the path as a component "/<base>/" cuts the path after that component;
+// otherwise the first of the trim-path entries (each made to end in "/") and of the built-in
+// "/proc/self/cwd/./", "/proc/self/cwd/" that is a PREFIX of the path is removed; else unchanged.
+func c17Trim(path, trim, source string) string {
+	split := func(s string) []string {
+		if s == "" {
+			return nil
+		}
+		return strings.Split(s, ":")
+	}
+	base := func(d string) string {
+		if d == "" {
+			return "."
+		}
+		d = strings.TrimRight(d, "/")
+		if d == "" {
+			return "/"
+		}
+		return d[strings.LastIndex(d, "/")+1:]
+	}
+	if trim == "" {
+		for _, d := range split(source) {
+			want := "/" + base(d) + "/"
+			if i := strings.Index(path, want); i >= 0 {
+				return path[i+len(want):]
+			}
+		}
+	}
+	for _, t := range append(split(trim), "/proc/self/cwd/./", "/proc/self/cwd/") {
+		if !strings.HasSuffix(t, "/") {
+			t += "/"
+		}
+		if strings.HasPrefix(path, t) {
+			return path[len(t):]
 		}
 	}
 	return path
+}
+
+// c17UniqueOracle: UniqueName ("disambiguates functions with same names"; the client pivots by
+// regexp over it). Order independent: among the sources sharing a full name exactly one keeps it as
+// unique name, every other one is FullName#<id of a function it stands for>; and different sources
+// have different unique names. The two ways the naming scheme of the code as it is breaks the
+// last statement are known findings with their own signatures (reported without failing the case,
+// so they cannot mask another finding); any other collision is a plain violation.
+func c17UniqueOracle(c *Ctx, cs c17Case, s *c17Set, idsOf map[int]map[uint64]bool, bad func(sig, what string)) {
+	hashForm := func(k int) bool { // Unique == Full#id for an id of the source
+		x := s.Sources[k]
+		for id := range idsOf[k] {
+			if x.Unique == x.Full+"#"+strconv.FormatUint(id, 10) {
+				return true
+			}
+		}
+		return false
+	}
+	plain := map[string][]int{}
+	groups := map[string][]int{}
+	for k := 1; k < len(s.Sources); k++ {
+		x := s.Sources[k]
+		if idsOf[k] == nil || !c17PlainASCII(x.Full) {
+			continue // a source no stack uses is reported elsewhere; non-ASCII names are mangled by JSON
+		}
+		groups[x.Full] = append(groups[x.Full], k)
+		switch {
+		case x.Unique == x.Full:
+			plain[x.Full] = append(plain[x.Full], k)
+		case hashForm(k):
+		default:
+			bad("C17/unique/form", fmt.Sprintf("Sources[%d]: UniqueName %+q is neither the full name %+q nor that name#<function id> (ids %v)", k, x.Unique, x.Full, idsOf[k]))
+		}
+	}
+	for full, g := range groups {
+		if n := len(plain[full]); n != 1 {
+			bad("C17/unique/plain-name-not-kept-by-exactly-one", fmt.Sprintf("%d sources have the full name %+q, %d of them (%v) have it as UniqueName", len(g), full, n, plain[full]))
+			break
+		}
+	}
+	byUnique := map[string]int{}
+	for k := 1; k < len(s.Sources); k++ {
+		x := s.Sources[k]
+		if idsOf[k] == nil || !c17PlainASCII(x.Full) {
+			continue
+		}
+		k0, dup := byUnique[x.Unique]
+		if !dup {
+			byUnique[x.Unique] = k
+			continue
+		}
+		y := s.Sources[k0]
+		shared := false
+		for id := range idsOf[k] {
+			if idsOf[k0][id] {
+				shared = true
+			}
+		}
+		what := fmt.Sprintf("Sources[%d] (%+q, file %+q, inlined=%v) and Sources[%d] (%+q, file %+q, inlined=%v) share the UniqueName %+q", k0, y.Full, y.File, y.Inlined, k, x.Full, x.File, x.Inlined, x.Unique)
+		switch {
+		case x.Full == y.Full && x.Unique != x.Full && y.Unique != y.Full && shared && x.Inlined != y.Inlined:
+			// FullName#id is handed out twice: to the plain and to the inlined copy of one function
+			c.Violation("C17/unique/collision/inlined-and-plain-copy-of-a-homonym", c17Trunc(what), cs)
+		case x.Full != y.Full && (x.Unique == x.Full) != (y.Unique == y.Full):
+			// a function literally named like another one's FullName#id
+			c.Violation("C17/unique/collision/literal-hash-in-name", c17Trunc(what), cs)
+		default:
+			bad("C17/unique/collision", what)
+		}
+	}
 }
